@@ -92,6 +92,29 @@ def scan_prefix(a: Bytes, c: Bytes, j: int):
     ensures(scan(a + c, j) == scan(a, j))
 
 
+@lemma(decreases='len(b) - j')
+def scan_ge(b: Bytes, j: int):
+    requires(0 <= j)
+    if j < len(b):
+        if b[j] >= 128:
+            scan_ge(b, j + 1)
+    unfold(scan(b, j))
+    ensures(scan(b, j) >= j)
+
+
+@lemma(decreases='len(b) - j')
+def scan_cut(b: Bytes, n: int, j: int):
+    """cutting a stream after the end of its header does not move the end of the header"""
+    requires(0 <= j and scan(b, j) < n and n <= len(b))
+    scan_ge(b, j)
+    unfold(scan(b, j))
+    if j < n:
+        if b[j] >= 128:
+            scan_cut(b, n, j + 1)
+    unfold(scan(b[:n], j))
+    ensures(scan(b[:n], j) == scan(b, j))
+
+
 @lemma(decreases='len(a) - j')
 def scan_shift(a: Bytes, j: int):
     requires(0 <= j and len(a) >= 1)
